@@ -23,6 +23,7 @@ int sm9_kem_encrypt(const SM9_ENC_MASTER_KEY *mpk, const char *id, size_t idlen,
 	size_t klen, uint8_t *kbuf, SM9_Z256_POINT *C)
 {
 	sm9_z256_t r;
+	SM9_Z256_POINT Q;
 	sm9_z256_fp12_t w;
 	uint8_t wbuf[32 * 12];
 	uint8_t cbuf[65];
@@ -30,8 +31,8 @@ int sm9_kem_encrypt(const SM9_ENC_MASTER_KEY *mpk, const char *id, size_t idlen,
 
 	// A1: Q = H1(ID||hid,N) * P1 + Ppube
 	sm9_z256_hash1(r, id, idlen, SM9_HID_ENC);
-	sm9_z256_point_mul(C, r, sm9_z256_generator());
-	sm9_z256_point_add(C, C, &mpk->Ppube);
+	sm9_z256_point_mul(&Q, r, sm9_z256_generator());
+	sm9_z256_point_add(&Q, &Q, &mpk->Ppube);
 
 	do {
 		// A2: rand r in [1, N-1]
@@ -40,8 +41,8 @@ int sm9_kem_encrypt(const SM9_ENC_MASTER_KEY *mpk, const char *id, size_t idlen,
 			return -1;
 		}
 
-		// A3: C1 = r * Q
-		sm9_z256_point_mul(C, r, C);
+		// A3: C1 = r * Q (Q is kept, a retry must not multiply the previous C1 again)
+		sm9_z256_point_mul(C, r, &Q);
 		sm9_z256_point_to_uncompressed_octets(C, cbuf);
 
 		// A4: g = e(Ppube, P2)
